@@ -1274,9 +1274,25 @@ pub fn run_c10(tier: Tier) -> i32 {
     let unit_n = AtomicU64::new(0);
     let max_len = if tier == Tier::Quick { 11 } else { 13 };
     let firsts: Vec<u64> = (0..9).collect();
-    par_map_fine(&firsts, |&first| {
+    // the symbols stand for hashes; three encodings: small numbers, numbers that differ only in the
+    // upper 32 bits, numbers that differ only in the lower 32 bits (a history that keeps part of a hash
+    // would confuse different positions)
+    let encodings: Vec<u64> = vec![0, 1, 2];
+    let enc_jobs: Vec<(u64, u64)> = encodings.iter().flat_map(|&e| firsts.iter().map(move |&f| (e, f))).collect();
+    par_map_fine(&enc_jobs, |&(enc, first)| {
         // sequences over per-parity alphabets {1,2,3} (even plies) and {11,12,13} (odd plies)
         let mut seq: Vec<u64> = vec![1 + first / 3, 11 + first % 3];
+        thread_local! {
+            static ENC: std::cell::Cell<u64> = std::cell::Cell::new(0);
+        }
+        ENC.with(|c| c.set(enc));
+        fn code(s: u64) -> u64 {
+            match ENC.with(|c| c.get()) {
+                0 => s,
+                1 => 0x1234_5678 | (s << 32) | (s << 50),
+                _ => 0xABCD_EF01_0000_0000 | s,
+            }
+        }
         fn rec(rep: &Reporter, seq: &mut Vec<u64>, max_len: usize, n: &AtomicU64) {
             let len = seq.len();
             if len >= 5 {
@@ -1284,7 +1300,7 @@ pub fn run_c10(tier: Tier) -> i32 {
                 for base in [0u16, 1, 37, 4000] {
                     let mut h = verif::History::new();
                     for (i, s) in seq.iter().enumerate() {
-                        h.set(base + i as u16, *s);
+                        h.set(base + i as u16, code(*s));
                     }
                     let start = base + (len - 1) as u16;
                     for window in 0..=(len as u16 + 1) {
@@ -1294,7 +1310,7 @@ pub fn run_c10(tier: Tier) -> i32 {
                         let lo = (len - 1).saturating_sub(window as usize);
                         let occ = (lo..len).filter(|&i| seq[i] == seq[len - 1] && (len - 1 - i) % 2 == 0).count();
                         if got != (occ >= 3) {
-                            rep.report(format!("repetition_counter:{}", if got { "reports_threefold_too_early" } else { "misses_threefold" }), json!({"kind": "history_unit", "sequence": seq.clone(), "base_index": base, "halfmove_window": window, "occurrences": occ, "reported_threefold": got}));
+                            rep.report(format!("repetition_counter:{}", if got { "reports_threefold_too_early" } else { "misses_threefold" }), json!({"kind": "history_unit", "sequence": seq.iter().map(|x| code(*x)).collect::<Vec<u64>>(), "symbols": seq.clone(), "base_index": base, "halfmove_window": window, "occurrences": occ, "reported_threefold": got}));
                         }
                     }
                 }
